@@ -91,6 +91,7 @@ type SpecFn struct {
 	Text   string
 	Uninterp bool
 	Rec      bool // recursive over its last (integer) parameter: n <= 0 ? base : f(..., n-1)
+	Reads    []string // uninterp only: leaf types whose heap components are implicit arguments (`reads byte, uint64, *Key`)
 }
 
 type Lemma struct {
@@ -260,7 +261,7 @@ func (cs *Contracts) loadFile(path string) error {
 			sf.Params = bs
 			tail := strings.TrimSpace(rest[j+1:])
 			if word == "uninterp" {
-				sf.Ret = tail
+				sf.Ret, sf.Reads = splitReads(tail) // `uninterp F(..) T reads byte, uint64` (ext_crypto.go)
 			} else {
 				k := strings.Index(tail, "=")
 				if k < 0 {
